@@ -77,6 +77,13 @@ def decorate(f, form, po=(), kwo=(), order='po_first', s=None, extra=(), exc=())
         if kwo:
             inner = modifiers.kwoargs(*kwo)(inner)
         return inner
+    if form in ('start_over_names', 'end_over_names'):
+        inner = f
+        if po:
+            inner = modifiers.posoargs(*po)(inner)
+        if kwo:
+            inner = modifiers.kwoargs(*kwo)(inner)
+        return modifiers.kwoargs(start=s)(inner) if form == 'start_over_names' else modifiers.posoargs(end=s)(inner)
     if form == 'start':
         return modifiers.kwoargs(*extra, start=s)(f)
     if form == 'end':
@@ -190,6 +197,14 @@ def selections(base0, bound, rnd, nboth=8, nstart=6, nend=6, maxsel=2):
             yield dict(form='names_over_start', s=sname, po=selfpo + rnd.choice(one))
         else:
             yield dict(form='names_over_end', s=sname, kwo=rnd.choice(one))
+    for _ in range(4):
+        if not one:
+            break
+        sname = rnd.choice(pool)
+        if rnd.random() < 0.5:
+            yield dict(form='start_over_names', s=sname, po=selfpo + rnd.choice(one))
+        else:
+            yield dict(form='end_over_names', s=sname, kwo=rnd.choice(one))
     if bound:
         yield dict(form='end', s='self', extra=[])
 
@@ -200,6 +215,8 @@ def describe(e, case):
     what = {'names': 'posoargs%r kwoargs%r (%s)' % (tuple(e['po']), tuple(e['kwo']), e['order']), 'start': 'kwoargs(%s start=%r)' % (e['extra'], e['s']),
             'names_over_start': 'posoargs%r kwoargs%r over kwoargs(start=%r)' % (tuple(e['po']), tuple(e['kwo']), e['s']),
             'names_over_end': 'posoargs%r kwoargs%r over posoargs(end=%r)' % (tuple(e['po']), tuple(e['kwo']), e['s']),
+            'start_over_names': 'kwoargs(start=%r) over posoargs%r kwoargs%r' % (e['s'], tuple(e['po']), tuple(e['kwo'])),
+            'end_over_names': 'posoargs(end=%r) over posoargs%r kwoargs%r' % (e['s'], tuple(e['po']), tuple(e['kwo'])),
             'end': 'posoargs(%s end=%r)' % (e['extra'], e['s']), 'auto': 'autokwoargs(exceptions=%r)' % (e['exc'],)}[e['form']]
     adv = next((absig.sig_str(a['ps']) for a in e['adv'] if a['tag'] == 'sig'), '-')
     text = '%s on %s def f%s -> %s, advertises %s; %d shapes called, %d accepted' % (
